@@ -17,6 +17,15 @@ Props/C05Names.lean (the string side of the symbol table, Model/JsgfNames.lean):
 Props/C05Repr.lean:
   C05_representable_fuel_stable, C05_refusal_not_by_fuel   the accept/refuse decision never depends on the recursion bound
   C05_read_string                jsgf_read_string: NULL without a public rule, else the correct FSG of a public rule
+Props/C05Graph.lean (Model/JsgfGraph.lean: rule-reference graph of the table, no stack / ntail / fuel):
+  C05_representable_iff_graph    the refusal test passes IFF every rule reachable from the root is defined and no reference
+                                 that is not last in its alternative lies on a cycle reachable from the root
+  C05_graph_decides              the executable representableGB (closure iteration) decides that predicate
+  C05_expand_iff_graphB, C05_compile_iff_graph   the compiler mirror builds iff the graph predicate holds
+Props/C05Surface.lean:
+  C05_surface_graph_partial, C05_compile_needs_surface_graph   one direction on the SURFACE grammar: what is accepted has
+                                 every user rule reachable defined and no non-tail reference (tail position through
+                                 nested groups/optionals, never under * / +) on a cycle of user rules
 
 Tie / oracle, per generated surface grammar g (printed to JSGF text with comments, quoting, tags, nested
 groups, weights), every rule of g used as top:
@@ -28,6 +37,12 @@ groups, weights), every rule of g used as top:
       length distribution 1 / typical / 23-40 / 100+ / 300+ / 1000+ bytes, printed into the evidence, with an
       obligation that long grammar names with >= 2 generated rules occurred;
   (b) "the real compiler builds an FSG" = `representable (desugar g) top`;
+  (b') the executable graph predicate `representableGB (desugar g) top` (driver op `graph`) = `representable` (the theorem,
+      evaluated) = "the real compiler builds an FSG" (unless the model refuses for a weight above 1 only), on every top of
+      every grammar of every family (corpus, generated, small-scope, texts); the same predicate read on the surface grammar
+      by a second implementation (`surface_graph_accepts`) must agree; the kinds of reference graph that occurred (undefined
+      reachable, left / middle recursion, direct / mutual right recursion, right recursion through group/optional/Kleene,
+      unreachable bad rule) are printed into the evidence, with an obligation on minimum counts;
   (c) when built: verified `nfaEquiv` of the real FSG (raw and closed, dumped through the real arc iterator)
       against `explore (desugar g) top`; a distinguishing sentence is confirmed by the verified membership
       decision on both sides (implementation-side oracle);
@@ -657,6 +672,8 @@ def parse_harness(out):
                 cur["fsg"].append((top, kind, None))
             else:
                 cur["fsg"].append((top, kind, parse_fsg_body(w[3:])))
+        elif w[0] == "why" and len(w) == 6:
+            cur.setdefault("why", {})[(unhx(w[1]), w[2])] = (w[3] == "1", w[4] == "1", w[5] == "1")
         elif w[0] == "stack":
             cur["stack"].append((unhx(w[1]), int(w[2])))
         elif w[0] == "read":
@@ -851,6 +868,8 @@ def run_batch(binp, cases):
             plan.append((i, "rep", nm))
             dlines.append(f"expand u{ids.rule[nm]}")
             plan.append((i, "expand", nm))
+            dlines.append(f"graph u{ids.rule[nm]}")
+            plan.append((i, "graph", nm))
         if hc:
             for top, kind, fsg in hc["fsg"]:
                 if isinstance(fsg, dict):
@@ -883,7 +902,7 @@ def run_batch(binp, cases):
                 plan.append((i, "readtop", None))
         dlines.append(f"usernames {hx(g['name'])} " + ",".join(hx(f"<{g['name']}.{nm}>") for nm in ids.rule))
         plan.append((i, "usernames", None))
-        results[i] = {"g": g, "text": text, "ids": ids, "h": hc, "m": {"rep": {}, "cmp": {}, "expand": {}},
+        results[i] = {"g": g, "text": text, "ids": ids, "h": hc, "m": {"rep": {}, "cmp": {}, "expand": {}, "graph": {}},
                       "extra_words": extra}
     rc, dout, derr = run_driver_retry("\n".join(dlines) + "\n")
     douts = dout.rstrip("\n").split("\n") if dout.strip() else []
@@ -901,6 +920,8 @@ def run_batch(binp, cases):
             m["rep"][arg] = ans
         elif what == "expand":
             m["expand"][arg] = ans
+        elif what == "graph":
+            m["graph"][arg] = ans
         elif what in ("names", "usernames", "readtop"):
             m[what] = ans
         else:
@@ -1043,6 +1064,51 @@ def mass_may_vanish(g):
     return bool(found)
 
 
+GRAPH_FIELDS = ["gb", "okr", "closed", "wref", "undef", "usercycle", "nontail", "left", "mutual", "viainternal", "unreachbad"]
+
+
+def parse_graph_answer(ans):
+    w = ans.split(" ")
+    if len(w) != 1 + len(GRAPH_FIELDS) or w[0] != "graph" or any(x not in ("0", "1") for x in w[1:]):
+        return None
+    return {k: x == "1" for k, x in zip(GRAPH_FIELDS, w[1:])}
+
+
+def graph_kinds(f):
+    """kinds of the reference graph below one top rule (from the flags the Lean driver computes on the desugared table);
+    a top can be of several kinds"""
+    out = []
+    if f["undef"]:
+        out.append("undefined rule reachable")
+    if f["nontail"] and f["left"]:
+        out.append("left recursion")
+    if f["nontail"] and not f["left"]:
+        out.append("middle / other non-tail recursion")
+    if f["usercycle"] and not f["nontail"]:
+        if f["mutual"]:
+            out.append("mutual right recursion")
+        if f["viainternal"]:
+            out.append("right recursion through group / optional / Kleene")
+        if not f["mutual"] and not f["viainternal"]:
+            out.append("right recursion, direct")
+    if f["nontail"] and not f["usercycle"]:
+        out.append("non-tail cycle through internal rules only")
+    if f["unreachbad"] and f["gb"]:
+        out.append("unreachable bad rule, top accepted")
+    if not out:
+        out.append("no recursion through a user rule, all defined")
+    return out
+
+
+# minimum number of (grammar, top) pairs per kind in a quick run (thorough: ten times as many)
+GRAPH_KIND_MIN_QUICK = {"undefined rule reachable": 30, "left recursion": 80, "middle / other non-tail recursion": 80,
+                        "mutual right recursion": 15, "right recursion through group / optional / Kleene": 30,
+                        "right recursion, direct": 40, "unreachable bad rule, top accepted": 70}
+GRAPH_KINDS_REQUIRED = ["undefined rule reachable", "left recursion", "middle / other non-tail recursion", "mutual right recursion",
+                        "right recursion through group / optional / Kleene", "right recursion, direct",
+                        "unreachable bad rule, top accepted"]
+
+
 def judge_case(res):
     """-> list of problems: (kind, impl_violates_property, detail)"""
     g, hc, m, ids = res["g"], res["h"], res["m"], res["ids"]
@@ -1121,6 +1187,62 @@ def judge_case(res):
                           True, {"sentence": sent, "fsg": fsg_brief(fsg)}))
         else:
             probs.append((f"language comparison for <{nm}> ({kind}) did not complete: {ans[:80]}", False, ""))
+    # (b') the graph reading of "the compiler accepts" (C05_representable_iff_graph, C05_graph_decides): the executable graph
+    # predicate representableGB must answer as the refusal test `representable` (the theorem, evaluated), and as the real
+    # compiler (the tie); a refusal the model attributes to a weight above 1 only (D36, not part of the graph) is set apart
+    gkinds = {}
+    for nm in names:
+        f = parse_graph_answer(m.get("graph", {}).get(nm, ""))
+        if f is None:
+            probs.append((f"model: no answer to the graph question for <{nm}>", False, m.get("graph", {}).get(nm, "")[:60]))
+            continue
+        gkinds[nm] = f
+        if f["gb"] != f["okr"]:
+            probs.append((f"model: representableGB (graph predicate, {f['gb']}) and representable (okRule, {f['okr']}) disagree on "
+                          f"<{nm}> — contradicts C05_representable_iff_graph", False, m["graph"][nm]))
+        if surface_graph_accepts(g, nm) != f["gb"]:
+            probs.append((f"model: the graph predicate on the desugared table ({f['gb']}) and its reading on the surface grammar "
+                          f"({not f['gb']}: tail position through nested groups/optionals, never under a Kleene operator) disagree on <{nm}>",
+                          False, m["graph"][nm]))
+        res["surface_graph_compared"] = res.get("surface_graph_compared", 0) + 1
+        if not f["closed"]:
+            probs.append((f"model: reachClosed is false for the table of <{nm}> — contradicts reachList_closed", False, ""))
+    res["graph"] = gkinds
+    for top, kind, fsg in hc["fsg"]:
+        nm = top[1 + len(g["name"]) + 1:-1]
+        if fsg == "crash" or nm not in gkinds:
+            continue
+        f = gkinds[nm]
+        want = f["gb"] and not f["wref"]
+        got = isinstance(fsg, dict)
+        res["graph_tie_compared"] = res.get("graph_tie_compared", 0) + 1
+        if not got and (top, kind) in hc.get("why", {}):
+            # the two clauses of the graph predicate against the two refusal paths of expand_rhs: the compiler stops at the first
+            # failure of its depth-first walk and prints exactly one of the two messages (or the weight message after a
+            # successful expansion); an "undefined rule" message needs an undefined rule reachable in the graph, an
+            # "only right-recursion" message needs a reference that is not last on a reachable cycle
+            U, Rm, W = hc["why"][(top, kind)]
+            res["refusal_messages_compared"] = res.get("refusal_messages_compared", 0) + 1
+            bad = None
+            if (1 if U else 0) + (1 if Rm else 0) + (1 if W else 0) != 1:
+                bad = f"printed {'no' if not (U or Rm or W) else 'more than one'} refusal message"
+            elif U and not f["undef"]:
+                bad = "says 'Undefined rule in RHS' but no undefined rule is reachable from the top in the reference graph"
+            elif Rm and not f["nontail"]:
+                bad = "says 'Only right-recursion is permitted' but no reference that is not last lies on a reachable cycle of the reference graph"
+            elif W and not f["wref"]:
+                bad = "refuses for a weight although the model does not"
+            if bad:
+                probs.append((f"graph predicate and the real compiler disagree on <{nm}> ({kind}): the compiler refuses and {bad}",
+                              None, {"messages": {"undefined": U, "recursion": Rm, "weight": W}, "graph": m["graph"][nm]}))
+        if want != got:
+            # when an FSG was built for a grammar the graph predicate rejects, the existing oracle above has already named the
+            # violation (language not preserved / not refused); the disagreement itself is a broken tie
+            probs.append((f"graph predicate and the real compiler disagree on <{nm}> ({kind}): the reference graph says "
+                          f"{'accept' if want else 'refuse'}"
+                          f"{' (undefined rule reachable)' if f['undef'] else ''}"
+                          f"{' (reference that is not last lies on a cycle)' if f['nontail'] else ''}, the compiler "
+                          f"{'builds an FSG' if got else 'refuses'}", None, m["graph"][nm]))
     # (c') the mirror of expand_rule: same states and links as the raw FSG (after fsg_model's merging of duplicate
     # links and dropping of null self-loops)
     for top, kind, fsg in hc["fsg"]:
@@ -1348,6 +1470,7 @@ def problem_class(p):
              ("the language of the JSGF rule", "language-differs"),
              ("symbol table key", "generated-name-differs"),
              ("rule table built by the real", "rule-table-differs"),
+             ("graph predicate and the real compiler disagree", "graph-tie-broken"),
              ("mirror of expand_rule", "expansion-differs-from-mirror"),
              ("missing from jsgf->rules", "rule-missing"),
              ("rule stack not empty", "rule-stack-not-empty"),
@@ -1637,7 +1760,7 @@ def run_text_batch(texts):
     for i, t in enumerate(texts):
         hc = hcases[i] if i < len(hcases) else None
         ans = d1[i]
-        res = {"text": t, "h": hc, "m_parse": ans, "ids": None, "rep": {}, "expand": {}, "cmp": {}, "extra_words": {}}
+        res = {"text": t, "h": hc, "m_parse": ans, "ids": None, "rep": {}, "expand": {}, "cmp": {}, "graph": {}, "extra_words": {}}
         results.append(res)
         if not ans.startswith("tparse "):
             continue
@@ -1664,6 +1787,8 @@ def run_text_batch(texts):
             plan.append((i, "rep", top))
             dlines.append(f"expand u{u}")
             plan.append((i, "expand", top))
+            dlines.append(f"graph u{u}")
+            plan.append((i, "graph", top))
         for top, kind, fsg in hc["fsg"]:
             if isinstance(fsg, dict) and top in ids.rule:
                 if kind == "closed" and len(fsg["arcs"]) > MAX_CLOSED_ARCS:
@@ -1734,6 +1859,22 @@ def judge_text(res):
         rep[top] = len(w) >= 5 and w[1] == "1"
         if rep[top] and w[4] == "none":
             probs.append((f"model: rule {top} builds but the exploration found no closed finite set of forms", False, ""))
+    # the graph reading of accept/refuse (as in judge_case (b')), on the table the Lean front end parsed from the text
+    for top, kind, fsg in hc["fsg"]:
+        if fsg == "crash" or top not in ids.rule:
+            continue
+        f = parse_graph_answer(res["graph"].get(top, ""))
+        if f is None:
+            probs.append((f"model: no answer to the graph question for {top}", False, res["graph"].get(top, "")[:60]))
+            continue
+        if f["gb"] != f["okr"] or not f["closed"]:
+            probs.append((f"model: representableGB and representable (okRule) disagree on {top} — contradicts "
+                          f"C05_representable_iff_graph", False, res["graph"][top]))
+        res["graph_tie_compared"] = res.get("graph_tie_compared", 0) + 1
+        if (f["gb"] and not f["wref"]) != isinstance(fsg, dict):
+            probs.append((f"graph predicate and the real compiler disagree on {top} ({kind}): the reference graph says "
+                          f"{'accept' if f['gb'] and not f['wref'] else 'refuse'}, the compiler "
+                          f"{'builds an FSG' if isinstance(fsg, dict) else 'refuses'}", None, res["graph"][top]))
     for top, kind, fsg in hc["fsg"]:
         if fsg == "crash" or top not in ids.rule:
             continue
@@ -1798,6 +1939,7 @@ def text_stream(c, gen, stats, ntexts, failed, fail_count, machinery):
             st["comparisons"] += sum(1 for v in res["cmp"].values() if v == "equal")
             stats["mirror_compared"] = stats.get("mirror_compared", 0) + res.get("mirror_compared", 0)
             stats["names_compared"] = stats.get("names_compared", 0) + res.get("names_compared", 0)
+            st["graph_predicate_vs_compiler_compared"] = st.get("graph_predicate_vs_compiler_compared", 0) + res.get("graph_tie_compared", 0)
             if res.get("user_names_ok") is False:
                 st["user_name_of_generated_shape"] = st.get("user_name_of_generated_shape", 0) + 1
             if probs:
@@ -2067,6 +2209,29 @@ def account(stats, res, probs):
     for k, ans in m["cmp"].items():
         key = ans.split(" ")[0]
         st["comparisons"][key] = st["comparisons"].get(key, 0) + 1
+    st["graph_tie_compared"] = st.get("graph_tie_compared", 0) + res.get("graph_tie_compared", 0)
+    st["surface_graph_compared"] = st.get("surface_graph_compared", 0) + res.get("surface_graph_compared", 0)
+    st["refusal_messages_compared"] = st.get("refusal_messages_compared", 0) + res.get("refusal_messages_compared", 0)
+    if hc:
+        RM = st.setdefault("refusal_messages", {})
+        for (top, kind), (U, Rm, W) in hc.get("why", {}).items():
+            if kind == "raw":
+                k = "+".join(x for x, b in (("undefined rule", U), ("only right-recursion", Rm), ("weight above 1", W)) if b) or "none"
+                RM[k] = RM.get(k, 0) + 1
+    if hc:
+        st["graph_tie_expected"] = st.get("graph_tie_expected", 0) + sum(1 for _, _, f in hc["fsg"] if f != "crash")
+        verdict = {}
+        for top, kind, fsg in hc["fsg"]:
+            if kind == "raw" and fsg != "crash":
+                verdict[top[1 + len(g["name"]) + 1:-1]] = "compiler builds" if isinstance(fsg, dict) else "compiler refuses"
+        GK = st.setdefault("graph_kinds", {}).setdefault(st.get("_family", "generated"), {})
+        for nm, f in res.get("graph", {}).items():
+            for k in graph_kinds(f):
+                d = GK.setdefault(k, {})
+                v = ("graph accepts, " if f["gb"] else "graph refuses, ") + verdict.get(nm, "not built")
+                if f["wref"]:
+                    v += " (weight above 1)"
+                d[v] = d.get(v, 0) + 1
     st["mirror_compared"] = st.get("mirror_compared", 0) + res.get("mirror_compared", 0)
     st["names_compared"] = st.get("names_compared", 0) + res.get("names_compared", 0)
     st["readtop_compared"] = st.get("readtop_compared", 0) + res.get("readtop_compared", 0)
@@ -2083,6 +2248,48 @@ def new_stats():
     return {"kind": {}, "public": {}, "rules_hist": {}, "depth_hist": {}, "features": {}, "model_decision": {},
             "impl_decision": {}, "read_string": {}, "comparisons": {}, "text_features": {}, "probability_sum_check": {},
             "recursion": {}, "max_forms": 0, "forms_total": 0, "max_fsg_states": 0, "max_fsg_arcs": 0}
+
+
+def surface_graph_accepts(g, top):
+    """the graph predicate read on the SURFACE grammar (second, untrusted implementation, compared with the Lean
+    representableGB on the desugared table for every top): nodes are the user rules (first definitions); a reference is a
+    tail reference iff it is the last item of its sequence and every enclosing group / optional is the last item of its
+    sequence in turn; anything under a Kleene star or plus is not (it is followed by the operator's own loop).  Accepted
+    iff no undefined rule is reachable from `top` and no reference that is not a tail reference lies on a cycle reachable
+    from `top`."""
+    rules = {nm: body for nm, _, body in first_defs(g)}
+    edges = {nm: set() for nm in rules}     # (target, is_tail)
+
+    def alts(a, src, last_ctx):
+        for sq in a:
+            for i, it in enumerate(sq):
+                exp(it[2], src, last_ctx and i == len(sq) - 1)
+
+    def exp(e, src, last):
+        if e[0] == "r":
+            edges[src].add((e[1], last))
+        elif e[0] in ("G", "O"):
+            alts(e[1], src, last)
+        elif e[0] in ("S", "P"):
+            exp(e[1], src, False)
+    for nm, body in rules.items():
+        alts(body, nm, True)
+
+    def reach(a):
+        seen, todo = {a}, [a]
+        while todo:
+            x = todo.pop()
+            for t, _ in edges.get(x, ()):
+                if t not in seen:
+                    seen.add(t)
+                    todo.append(t)
+        return seen
+    if top not in rules:
+        return False
+    R = reach(top)
+    if any(x not in rules for x in R):
+        return False
+    return not any((not tail) and r in reach(t) for r in R for t, tail in edges[r])
 
 
 def recursion_class(g):
@@ -2179,6 +2386,7 @@ def check(c):
 
     def process(cases, label):
         nonlocal evaluations
+        stats["_family"] = "corpus" if label == "corpus" else "small-scope exhaustive" if label.startswith("small-scope") else "generated"
         try:
             results = run_batch(None, [(g, t) for g, t, _ in cases])
         except DriverFailure as e:
@@ -2272,6 +2480,20 @@ def check(c):
                  (bool(fail_count) or stats.get("long_name_tables_agreeing", 0) >= need[f"name >= {LONG_GNAME} bytes and >= {MIN_GENERATED} generated rules"] // 2),
                  {"generated": longs, "required at least": need,
                   "long-name tables with >= 2 generated keys agreeing with the model": stats.get("long_name_tables_agreeing", 0)})
+    # the graph reading of accept/refuse: evaluated on every (grammar, top) pair, and every kind of reference graph occurred
+    gk = {fam: {k: dict(sorted(v.items())) for k, v in sorted(d.items())} for fam, d in sorted(stats.get("graph_kinds", {}).items())}
+    gk_total = {k: sum(v.values()) for k, v in gk.get("generated", {}).items()}
+    gk_need = GRAPH_KIND_MIN_QUICK if c.tier == "quick" else {k: 10 * v for k, v in GRAPH_KIND_MIN_QUICK.items()}
+    c.oblige("tie: the graph predicate representableGB (C05_graph_decides) was compared with the real compiler's accept/refuse "
+             "decision on every build that did not crash, and with the refusal test `representable` on every (grammar, top) pair",
+             stats.get("graph_tie_compared", 0) > 0 and stats.get("graph_tie_compared", 0) == stats.get("graph_tie_expected", 0),
+             {"compared": stats.get("graph_tie_compared", 0), "builds": stats.get("graph_tie_expected", 0)})
+    if sum(fail_count.values()) < 40:
+        c.oblige("input distribution: every kind of rule-reference graph occurred (undefined rule reachable, left recursion, other "
+                 "non-tail recursion, direct / mutual right recursion, right recursion through a group / optional / Kleene operator, "
+                 "bad rule that the top cannot reach)",
+                 all(gk_total.get(k, 0) >= v for k, v in gk_need.items()),
+                 {"(grammar, top) pairs per kind in the generated family": gk_total, "required at least": gk_need})
     nontrivial = stats["comparisons"].get("equal", 0) + stats["comparisons"].get("differ", 0)
     c.cov.update({"evaluations": evaluations, "distinct_nontrivial": len(distinct) + exhaustive,
                   "rule": "distinct generated JSGF texts (1-5 rules, nesting depth 0-6, identifiers of 1 to 1100 bytes incl. package-style "
@@ -2288,6 +2510,11 @@ def check(c):
                   "jsgf_read_string": stats["read_string"], "comparison_verdicts": stats["comparisons"],
                   "probability_sum_check_per_grammar": stats["probability_sum_check"],
                   "raw_fsgs_equal_to_mirror_of_expand_rule": stats.get("mirror_compared", 0),
+                  "graph_predicate_vs_real_compiler_builds_compared": stats.get("graph_tie_compared", 0),
+                  "graph_predicate_on_table_equal_to_surface_reading_tops_compared": stats.get("surface_graph_compared", 0),
+                  "refusal_message_vs_graph_clause_compared": stats.get("refusal_messages_compared", 0),
+                  "refusal_messages_of_the_real_compiler_raw_builds": stats.get("refusal_messages", {}),
+                  "reference_graph_kind_per_grammar_and_top_x_compiler_verdict": gk,
                   "identifier_length_bytes_per_kind": stats.get("identifier_lengths", {}),
                   "identifier_length_classes_drawn": {k: f"{w}%" for k, w in LEN_CLASSES},
                   "grammar_name_bytes_x_generated_rules": dict(sorted(stats.get("grammar_name_bytes_x_generated_rules", {}).items())),
